@@ -6,6 +6,7 @@ import (
 	"os"
 	"net"
 	"net/netip"
+	"time"
 
 	"github.com/irai/packet"
 
@@ -336,7 +337,74 @@ func c15ICMP(c *wk.Ctx, idx *int64) {
 		id, seq := uint16(r.Intn(65536)), uint16(r.Intn(65536))
 		dmac := net.HardwareAddr{2, byte(r.Intn(256)), byte(r.Intn(256)), 3, 4, 5}
 		c.Eval()
-		if i%2 == 0 {
+		if i%8 == 7 && nic.HostLLA.IsValid() {
+			// the neighbour discovery senders: messages from 16 bytes (RS) to several hundred (an RA with many prefixes and
+			// DNS servers), every one checked against its pseudo header
+			var a [16]byte
+			r.Read(a[:])
+			a[0], a[1] = 0xfe, 0x80
+			peer := packet.Addr{MAC: dmac, IP: netip.AddrFrom16(a)}
+			own := packet.Addr{MAC: nic.HostMAC, IP: nic.HostLLA}
+			var api string
+			var err error
+			switch r.Intn(6) {
+			case 0:
+				api = "ICMP6SendRouterSolicitation"
+				err = s.ICMP6SendRouterSolicitation()
+			case 1:
+				api = "ICMP6SendNeighborAdvertisement"
+				err = s.ICMP6SendNeighborAdvertisement(own, peer, own)
+			case 2:
+				api = "ICMP6SendNeighbourSolicitation"
+				err = s.ICMP6SendNeighbourSolicitation(own, peer, peer.IP)
+			default:
+				api = "ICMP6SendRouterAdvertisement"
+				var pfx []packet.PrefixInformation
+				for k := 1 + r.Intn(14); k > 0; k-- {
+					p := [16]byte{0x20, 0x01, 0x0d, 0xb8, byte(r.Intn(256)), byte(r.Intn(256)), byte(r.Intn(256)), byte(k)}
+					pfx = append(pfx, packet.PrefixInformation{Prefix: net.IP(p[:]), PrefixLength: 64})
+				}
+				var rdnss *packet.RecursiveDNSServer
+				if k := r.Intn(5); k > 0 {
+					rdnss = &packet.RecursiveDNSServer{Lifetime: time.Duration(r.Intn(7200)) * time.Second}
+					for ; k > 0; k-- {
+						p := [16]byte{0x26, 0x06, 0x47, 0x00, 0x47, 0x00, 14: byte(r.Intn(256)), 15: byte(k)}
+						rdnss.Servers = append(rdnss.Servers, net.IP(p[:]))
+					}
+				}
+				dst := packet.IP6AllNodesAddr
+				if r.Intn(2) == 0 {
+					dst = peer
+				}
+				err = s.ICMP6SendRouterAdvertisement(pfx, rdnss, dst)
+			}
+			if err != nil {
+				c.Viol("tx:"+api+":error", err.Error(), nil)
+				continue
+			}
+			fr := rec.Take()
+			if len(fr) != 1 {
+				c.Viol("tx:"+api+":count", fmt.Sprintf("%d frames sent", len(fr)), nil)
+				continue
+			}
+			f := fr[0]
+			d := refdec.Decode(f.Data)
+			if d.Err || d.PayloadID != refdec.PICMP6 {
+				c.Viol("tx:"+api+":undecodable", wk.Hex(f.Data), nil)
+				continue
+			}
+			ip := f.Data[d.OffIP6:]
+			pl := int(ip[4])<<8 | int(ip[5])
+			if 40+pl > len(ip) || !refdec.Verify1071(refdec.PseudoHdr6(d.SrcIP, d.DstIP, pl, 58), ip[40:40+pl]) {
+				c.Viol("diff:ICMP6.checksum:"+api, fmt.Sprintf("the %d byte ICMPv6 message sent by %s does not verify with its pseudo header: %s", pl, api, wk.Hex(f.Data)), map[string]any{"index": *idx})
+				continue
+			}
+			c.Class(fmt.Sprintf("ndp-send %s len~%d", api, pl/64*64))
+			c.Obs("ndp_messages_sent_and_verified", 1)
+			if pl >= 256 {
+				c.Obs("ndp_messages_of_256_bytes_and_more", 1)
+			}
+		} else if i%2 == 0 {
 			dst := randAddr4(r)
 			src := randAddr4(r)
 			if err := s.ICMP4SendEchoRequest(packet.Addr{MAC: nic.HostMAC, IP: src}, packet.Addr{MAC: dmac, IP: dst}, id, seq); err != nil {
